@@ -77,11 +77,16 @@ def main(tier):
                     d = ["raised %s" % o[2]] if o[0] != "ok" else check("Scalar", o[1], row, [w], "Scalar")
                     if d:
                         rep.violation({"check": "Scalar with a plain number", "op": op, "k": kname, "kvalue": kval, "quantity": qsel, "x": v}, {"diff": d})
-                for kind in ("list", "tuple", "ndarray") + (("intarray",) if all(float(v) == int(v) for v in vs) else ()):
-                    for cls, mk in (("Array", lambda: mkarray(qsel, vs, kind)), ("FixedArray", lambda: FixedArray(len(vs), mkarray(qsel, vs, kind).GetQuantity(), mkarray(qsel, vs, kind).GetAbstractValue()))):
+                ivs = [v for v in vs if float(v) == int(v)]
+                iwant = [w for v, w in zip(vs, want) if float(v) == int(v)]
+                for kind in ("list", "tuple", "ndarray", "intarray"):
+                    xs_, ws_ = (ivs, iwant) if kind == "intarray" else (vs, want)
+                    if len(xs_) < 2:
+                        continue
+                    for cls, mk in (("Array", lambda: mkarray(qsel, xs_, kind)), ("FixedArray", lambda: FixedArray(len(xs_), mkarray(qsel, xs_, kind).GetQuantity(), mkarray(qsel, xs_, kind).GetAbstractValue()))):
                         o = P.outcome(lambda: FN[op](kobj, mk()))
                         n += 1
-                        d = ["raised %s" % o[2]] if o[0] != "ok" else check(cls, o[1], rows[0], want, cls)
+                        d = ["raised %s" % o[2]] if o[0] != "ok" else check(cls, o[1], rows[0], ws_, cls)
                         if d:
                             rep.violation({"check": "%s with a plain number" % cls, "op": op, "k": kname, "kvalue": kval, "quantity": qsel, "container": kind}, {"diff": d, "xs": vs})
             # a numpy array as the plain operand (Arrays only): element i of k is kval for every i
